@@ -379,3 +379,19 @@ def r11(ctx):
 
 
 RULES.append(("C11.R11", "T11/T2", "the application sequence number is a 4-bit counter wrapping 15 -> 0 (shared with C04.R12)", r11))
+
+
+def r12(ctx):
+    """'a READ is answered with a consistent snapshot' of everything it asks for: DatabaseHandle::select walks ALL object headers of
+    the request - a header that cannot be read is noted in IIN2 and the walk goes on (its loop ends only when the headers are
+    exhausted), as the deferred-READ sibling does."""
+    prog = ctx.prog
+    bd = prog.body("outstation::database::DatabaseHandle::select")
+    sel = call_sites(bd, r"Database::select_by_header$")
+    if len(sel) != 1:
+        raise AnchorError("DatabaseHandle::select: select_by_header sites %d" % len(sel))
+    ok = loop_exits_only_when_exhausted(ctx, bd, sel[0].idx)
+    ctx.check(ok is True, "select:all-headers", "DatabaseHandle::select processes every header of the request", bd.where(sel[0].idx), bad_detail="the header loop of DatabaseHandle::select can be left before the headers are exhausted: the headers behind an unsupported one are neither snapshotted nor reported")
+
+
+RULES.append(("C11.R12", "T2-loop", "a READ selects every one of its object headers (an unsupported header does not end the walk)", r12))
